@@ -1,6 +1,6 @@
 (* C19 property theorems. Nothing but statements closed by `exact lemma` and Print Assumptions. *)
 From Coq Require Import String List Bool NArith.
-From OG Require Import C19.Model C19.Guards C19.Gen_Routes C19.Privileges C19.Gen_Privileges C19.Proofs.
+From OG Require Import C19.Model C19.Guards C19.AuthCache C19.Gen_Routes C19.Privileges C19.Gen_Privileges C19.Proofs.
 Import ListNotations.
 Open Scope string_scope.
 Open Scope N_scope.
@@ -244,6 +244,30 @@ Theorem repository_reads_refuse_without_privilege : forall r cfg us rq u,
 Proof. exact see_routes_refuse_lemma. Qed.
 Print Assumptions repository_reads_refuse_without_privilege.
 
+(* ---- credential validity follows the catalogue on every update path of the node's catalogue copy ---- *)
+(* For every hash function, every initial user list and EVERY history of authentications and catalogue updates - through
+   incremental commands, full snapshot, SetData or the version-1 snapshot, carrying whatever change - : when the password
+   cache is refreshed with every update, a (name, password) is accepted only if the user exists in the PRESENT catalogue
+   and the password verifies against its PRESENT hash. A superseded password, a dropped user, a wrong password are refused. *)
+Theorem credentials_follow_the_catalogue : forall verify evs us0 n p,
+  let st := run verify refresh_always [] us0 evs in
+  fst (authenticate_c verify (fst st) (snd st) n p) = true ->
+  exists u, find_cuser (snd st) n = Some u /\ verify (cu_hash u) p = true.
+Proof. exact credentials_follow_the_catalogue_lemma. Qed.
+Print Assumptions credentials_follow_the_catalogue.
+
+(* the invariant behind it: after every update kind the cache is consistent with the new user list *)
+Theorem auth_cache_consistent_after_every_update : forall verify c us path us',
+  consistent verify c us -> consistent verify (apply_update refresh_always c path us') us'.
+Proof. exact update_consistent_when_always_refreshed. Qed.
+Print Assumptions auth_cache_consistent_after_every_update.
+
+(* (T) in the source every update loop of the catalogue copy refreshes the cache under exactly the conditions under which
+   it publishes the new copy *)
+Theorem auth_cache_refreshed_with_every_update : auth_refresh_with_every_update_now = true.
+Proof. exact auth_refresh_check. Qed.
+Print Assumptions auth_cache_refreshed_with_every_update.
+
 (* ---- guard formulas: the handler kind DERIVED from the source ---- *)
 (* For ALL formulas, configurations, users, requests and values of the conditions the evaluator does not understand: the
    kind `derive` assigns means what it says - the handler goes on exactly when (DAdmin, DSee, DWrite, DQuery, DDbRead,
@@ -468,4 +492,13 @@ Example C19_example_guard_formulas :
   derive (GAnd F_dbread (GOr (GNot (GOpaque 5)) (GAnd (GOpaque 5) F_query))) = DAtLeastRead /\
   derive (GOr (GNot (GOpaque 5)) (GAnd (GOpaque 5) F_query)) = DUnknown /\
   derive (GOr GAuthOff (GAnd (GNot GNil) (GOr GAdmin GDbWrite))) = DUnknown /\ derive GTrue = DEveryone.
+Proof. vm_compute. repeat split. Qed.
+
+Example C19_example_auth_cache :
+  let us0 := [mk_cuser "alice" "H:old" false true] in
+  let us1 := [mk_cuser "alice" "H:new" false true] in
+  let st := run verify_plain refresh_always [] us0 [EvAuth "alice" "old"; EvUpdate PFull us1] in
+  fst (authenticate_c verify_plain (fst st) (snd st) "alice" "old") = false /\
+  fst (authenticate_c verify_plain (fst st) (snd st) "alice" "new") = true /\
+  fst (run verify_plain refresh_always [] us0 [EvAuth "alice" "old"]) = [mk_centry "alice" "H:old" "old"].
 Proof. vm_compute. repeat split. Qed.
